@@ -317,6 +317,29 @@ func (h *hist) waitAsked(n int) bool {
 	}
 }
 
+var muxStackBuf = make([]byte, 1<<16)
+
+// muxGoroutines counts the goroutines that are inside UDPMuxDefault code (connWorker, the GetConn watchers).
+func muxGoroutines() int {
+	for {
+		n := runtime.Stack(muxStackBuf, true)
+		if n < len(muxStackBuf) {
+			cnt := 0
+			for _, blk := range strings.Split(string(muxStackBuf[:n]), "\n\n") {
+				if k := strings.Index(blk, "created by "); k >= 0 {
+					blk = blk[:k]
+				}
+				// (the goroutine taking the dump -- the harness itself, possibly inside a mux call -- is "running")
+				if strings.Contains(blk, "(*UDPMuxDefault)") && !strings.Contains(strings.SplitN(blk, "\n", 2)[0], "[running]") {
+					cnt++
+				}
+			}
+			return cnt
+		}
+		muxStackBuf = make([]byte, 2*len(muxStackBuf))
+	}
+}
+
 // quiesce waits until the worker and the watcher goroutines have settled.
 func (h *hist) quiesce() bool {
 	deadline := time.Now().Add(5 * time.Second)
@@ -330,7 +353,10 @@ func (h *hist) quiesce() bool {
 				expected++
 			}
 		}
-		if runtime.NumGoroutine() == expected {
+		if runtime.NumGoroutine() == expected && muxGoroutines() == expected-h.base {
+			// the process-wide count alone can match by coincidence (a runtime helper goroutine that was part
+			// of the base has exited while a watcher is still running): the mux's own goroutines are counted
+			// from their stacks as well
 			return true
 		}
 		if time.Now().After(deadline) {
